@@ -41,6 +41,13 @@ pub struct Item {
     pub delim: u8,
 }
 
+impl Item {
+    /// the separator between the first two items of the list is not a comma (`delim` of 10 and above)
+    pub fn garbled(&self) -> bool {
+        self.delim >= 10 && matches!(&self.kind, Kind::List(items) if items.len() >= 2)
+    }
+}
+
 #[derive(Default)]
 pub struct Ids(pub usize);
 
@@ -178,14 +185,22 @@ pub fn render_item(it: &Item, out: &mut String, ranges: &mut Ranges, spacing: u8
         Kind::List(items) => {
             out.push_str(&crate::spec::written(&it.name));
             ranges.name.insert(it.id, (lo, out.len()));
-            let (o, c) = match it.delim {
+            let (o, c) = match it.delim % 10 {
                 1 => ('[', ']'),
                 2 => ('{', '}'),
                 _ => ('(', ')'),
             };
             out.push(o);
             let ilo = out.len();
-            render_items(items, out, ranges, spacing, items.len() > 1 && spacing % 3 == 0);
+            if it.garbled() {
+                // the first item, a semicolon where the comma belongs, the others (a blank would do for
+                // most neighbours, but `a ::b` is one longer path)
+                render_item(&items[0], out, ranges, spacing);
+                out.push_str("; ");
+                render_items(&items[1..], out, ranges, spacing, false);
+            } else {
+                render_items(items, out, ranges, spacing, items.len() > 1 && spacing % 3 == 0);
+            }
             ranges.inner.insert(it.id, (ilo, out.len()));
             out.push(c);
         }
